@@ -548,7 +548,9 @@ void RootCluster::calculateClusterPathsToEachNode(size_t nodesCount)
                 lcaCluster->m_cluster_cluster_overlap_exceptions.insert(
                         ShapePair(lcaChildJIndex, lcaChildKIndex));
 
-                if (lcaChildJCluster)
+                // (If node i is itself a child of the lca there is no other
+                // cluster that could stand in for it.)
+                if (lcaChildJCluster && lcaChildKCluster)
                 {
                     // In cluster J, replace node i with cluster K for the 
                     // purpose of non-overlap with siblings, and remember 
@@ -560,7 +562,7 @@ void RootCluster::calculateClusterPathsToEachNode(size_t nodesCount)
                     lcaChildJCluster->m_nodes_replaced_with_clusters.insert(i);
                 }
 
-                if (lcaChildKCluster)
+                if (lcaChildKCluster && lcaChildJCluster)
                 {
                     // In cluster K, replace node i with cluster J for the 
                     // purpose of non-overlap with siblings, and remember 
